@@ -305,3 +305,17 @@ def _xarrays_from_regions(env):
 OBLIGATIONS.append(Ob("total_poloidal_distance_collected_from_y_groups", _xarrays_from_regions, tier="quick", family="collection", encodes=["hypnotoad.core.mesh:BoutMesh.geometry"],
                       desc="x-direction arrays (total_poloidal_distance, ShiftAngle): centre and xlow of the global array take the first region of each y-group over its radial range (shared with C06)",
                       bounds="4 regions in 3 y-groups, values symbolic"))
+
+
+def _ygroups(kind):
+    def body(env):
+        import harness.c08 as m   # resolved at call time
+        return m._mk_ygroups(kind)(env)
+    return body
+
+
+for _k in ("lsn", "cdn", "ldn", "udn", "circular_core"):
+    OBLIGATIONS.append(Ob("origin_of_the_closed_surface_integrals_" + _k, _ygroups(_k), tier="quick", family="calcPoloidalDistance",
+                          encodes=["hypnotoad.core.mesh:Mesh.makeRegions"],
+                          desc="the chain of y-connected core regions starts at its first region in y-index order (where the integrated quantity is zero): shared with C08",
+                          bounds="real constructor on symbolic sizes", max_paths=400))
